@@ -836,6 +836,78 @@ def _hoist_first_operand(tree: ast.Module) -> None:
             setattr(holder, field, new)
 
 
+def _guard_to_wrap(tree: ast.Module) -> None:
+    """in a function that returns no value and is not a generator:  if c: return; REST  ->  if not c: REST"""
+    for fn in ast.walk(tree):
+        if not isinstance(fn, ast.FunctionDef):
+            continue
+        inner = [n for n in ast.walk(fn)]
+        if any(isinstance(n, (ast.Yield, ast.YieldFrom)) for n in inner) or any(isinstance(n, ast.Return) and n.value is not None for n in inner) \
+                or any(isinstance(n, (ast.FunctionDef, ast.Lambda)) and n is not fn for n in inner):
+            continue
+        body = fn.body
+        for i in range(len(body) - 2, -1, -1):
+            st = body[i]
+            if isinstance(st, ast.If) and not st.orelse and len(st.body) == 1 and isinstance(st.body[0], ast.Return):
+                body = body[:i] + [ast.If(test=ast.UnaryOp(op=ast.Not(), operand=st.test), body=body[i + 1:], orelse=[], lineno=st.lineno)]
+        fn.body = body
+
+
+def _wrap_to_guard(tree: ast.Module) -> None:
+    """in a function that returns no value and is not a generator, last statement `if c: BODY` (no else)  ->  if not c: return; BODY"""
+    for fn in ast.walk(tree):
+        if not isinstance(fn, ast.FunctionDef):
+            continue
+        inner = [n for n in ast.walk(fn)]
+        if any(isinstance(n, (ast.Yield, ast.YieldFrom)) for n in inner) or any(isinstance(n, ast.Return) and n.value is not None for n in inner) \
+                or any(isinstance(n, (ast.FunctionDef, ast.Lambda)) and n is not fn for n in inner):
+            continue
+        last = fn.body[-1]
+        if isinstance(last, ast.If) and not last.orelse and len(fn.body) > 1:
+            fn.body = fn.body[:-1] + [ast.If(test=ast.UnaryOp(op=ast.Not(), operand=last.test), body=[ast.Return(value=None)], orelse=[], lineno=last.lineno)] + last.body
+
+
+class _SliceSpelling(ast.NodeTransformer):
+    """x[:k] -> x[0:k];  x[a:] -> x[a:len(x)]    (x a plain name, no step)"""
+
+    def visit_Subscript(self, node: ast.Subscript):
+        self.generic_visit(node)
+        sl = node.slice
+        if isinstance(sl, ast.Slice) and sl.step is None and isinstance(node.value, ast.Name) and isinstance(node.ctx, ast.Load):
+            if sl.lower is None and sl.upper is not None:
+                sl.lower = ast.Constant(value=0)
+            elif sl.upper is None and sl.lower is not None:
+                sl.upper = ast.Call(func=ast.Name(id="len", ctx=ast.Load()), args=[ast.Name(id=node.value.id, ctx=ast.Load())], keywords=[])
+        return node
+
+
+def _extract_local(tree: ast.Module) -> None:
+    """f(a, g(x), ...) as a statement / assigned / returned  ->  _x0 = g(x); f(a, _x0, ...)   (first non-trivial positional argument,
+    everything evaluated before it is a plain name or a constant)"""
+    for fn in ast.walk(tree):
+        if not isinstance(fn, ast.FunctionDef):
+            continue
+        k = 0
+        for holder, field, lst in list(_stmt_lists_of(fn)):
+            new = []
+            for st in lst:
+                call = st.value if isinstance(st, (ast.Expr, ast.Assign, ast.Return)) and isinstance(getattr(st, "value", None), ast.Call) else None
+                if call is not None and (isinstance(call.func, ast.Name) or isinstance(call.func, ast.Attribute) and isinstance(call.func.value, (ast.Name, ast.Call)) and not
+                                         (isinstance(call.func.value, ast.Call) and not (isinstance(call.func.value.func, ast.Name) and call.func.value.func.id == "super" and not call.func.value.args))):
+                    for i, a in enumerate(call.args):
+                        if isinstance(a, (ast.Name, ast.Constant)):
+                            continue
+                        if isinstance(a, (ast.Call, ast.BinOp, ast.Subscript)) and not any(isinstance(n, (ast.GeneratorExp, ast.ListComp, ast.SetComp, ast.DictComp, ast.Lambda, ast.Yield, ast.YieldFrom, ast.NamedExpr, ast.Starred))
+                                                                                          for n in ast.walk(a)):
+                            name = f"_x{k}"
+                            k += 1
+                            new.append(ast.Assign(targets=[ast.Name(id=name, ctx=ast.Store())], value=a, lineno=st.lineno))
+                            call.args[i] = ast.Name(id=name, ctx=ast.Load())
+                        break
+                new.append(st)
+            setattr(holder, field, new)
+
+
 class _InToOr(ast.NodeTransformer):
     """x in (a, b) -> x == a or x == b;   x not in (a, b) -> x != a and x != b    (x a plain name, display of 2-3 elements)"""
 
@@ -1073,6 +1145,10 @@ def generic_equiv(files: List[str]) -> List[Variant]:
             ("in-to-or", _transformer(_InToOr), "x in (a, b) -> x == a or x == b"),
             ("or-to-in", _transformer(_OrToIn), "x == a or x == b -> x in (a, b)"),
             ("unpack-by-index", _fix(_unpack_by_index), "a, b = t -> a = t[0]; b = t[1]"),
+            ("guard-to-wrap", _fix(_guard_to_wrap), "procedure: if c: return; REST -> if not c: REST"),
+            ("wrap-to-guard", _fix(_wrap_to_guard), "procedure ending in if c: BODY -> if not c: return; BODY"),
+            ("slice-spelling", _transformer(_SliceSpelling), "x[:k] -> x[0:k]; x[a:] -> x[a:len(x)]"),
+            ("extract-local", _fix(_extract_local), "f(a, g(x)) -> _x0 = g(x); f(a, _x0)"),
             ("sorted-to-sort", _fix(_sorted_to_sort), "x = sorted(E) -> x = list(E); x.sort()"),
         ):
             out.append(Variant(f"equiv-{tag}-{short}", [(f, fn)], "nofire", note=note))
